@@ -1,7 +1,13 @@
 #!/bin/bash
-# run every behaviour-preserving change under /tmp/seed/out3 (or $1) against all checks, in parallel
-src=${1:-/tmp/seed/out3}
-mkdir -p /tmp/seed/rf_logs; rm -f /tmp/seed/rf_logs/*.log
-for i in 01 02 03 04 05 06 07 08 09 10 11 12 13 14 15 16 17 18 19 20; do echo $i; done | xargs -P 10 -I{} bash -c 'for f in '$src'/C{}/refactor*.diff; do /verif/tools/refactor_check_wt.sh $f /tmp/seed/R{}; done > /tmp/seed/rf_logs/C{}.log 2>&1'
-echo "silent: $(grep -h '^SILENT' /tmp/seed/rf_logs/*.log | wc -l)"
-grep -h "^FALSE-ALARM\|NO-APPLY" /tmp/seed/rf_logs/*.log
+# Development-time: run every behaviour-preserving change under $1 (default /verif/refactors/r1) against
+# all 20 quick checks, 10 at a time, each in its own scratch worktree /tmp/seed/X01..X10
+# (create them with: git -C /repo worktree add --detach /tmp/seed/XNN HEAD).
+src=${1:-/verif/refactors/r1}
+logs=/tmp/seed/rf_logs; mkdir -p $logs; rm -f $logs/*.log
+ls $src/*/refactor*.diff | awk '{printf "%s %02d\n", $0, (NR-1)%10+1}' > $logs/jobs.txt
+for slot in 01 02 03 04 05 06 07 08 09 10; do
+  ( grep " $slot\$" $logs/jobs.txt | while read f s; do /verif/tools/refactor_check_wt.sh $f /tmp/seed/X$slot; done > $logs/slot$slot.log 2>&1 ) &
+done
+wait
+echo "silent: $(grep -h '^SILENT' $logs/*.log | wc -l) of $(wc -l < $logs/jobs.txt)"
+grep -h "^FALSE-ALARM\|NO-APPLY" $logs/*.log
